@@ -644,7 +644,10 @@ var (
 // c12LongChains: chains of many certificates (9, 10, 12, 17), of which none / all / only the ones after the first eight name a
 // responder. Nothing in the statement depends on the length: one result per certificate, in order, each naming its own URLs.
 // Every call runs under the watchdog (a check that never returns is reported, not waited for).
-func c12LongChains(c *mc.Ctx) {
+func c12LongChains(c *mc.Ctx) { longChains(c, "C12") }
+
+// longChains is shared with C09 (which owns "always terminates"): id is the property the findings are reported under.
+func longChains(c *mc.Ctx, id string) {
 	n := []int{9, 10, 12, 17}[c.ChooseFree("length", 4)]
 	shape := []string{"all-with-responder", "none-with-sources", "first-eight-without-sources", "alternating"}[c.ChooseFree("shape", 4)]
 	entry := []string{"validatecontext", "validate", "checkstatus"}[c.ChooseFree("entry", 3)]
@@ -689,17 +692,17 @@ func c12LongChains(c *mc.Ctx) {
 	})
 	c.Statef("long chain %d %s", n, shape)
 	if pan != nil {
-		c.Fail("C12 "+entry+" panic on a long chain", "length %d shape %s: %v", n, shape, pan)
+		c.Fail(id+" "+entry+" panic on a long chain", "length %d shape %s: %v", n, shape, pan)
 		return
 	}
 	if hung {
 		c.Outcome("long-chain:hang")
 		c.NoRerun()
-		c.Fail("C12 "+entry+" no answer for a long chain", "length %d shape %s: the check did not return within %v\n%s", n, shape, c09Watchdog, dump)
+		c.Fail(id+" "+entry+" no answer for a long chain", "length %d shape %s: the check did not return within %v\n%s", n, shape, c09Watchdog, dump)
 		return
 	}
 	if err != nil {
-		c.Fail("C12 "+entry+" valid long chain rejected", "length %d shape %s: %v", n, shape, err)
+		c.Fail(id+" "+entry+" valid long chain rejected", "length %d shape %s: %v", n, shape, err)
 		return
 	}
 	c.Outcome("long-chain:answered")
@@ -708,7 +711,7 @@ func c12LongChains(c *mc.Ctx) {
 		en = "checkstatus"
 	}
 	for _, why := range shapeViolations(chain, res, en) {
-		c.Fail("C12 "+entry+" result-shape (long chain): "+stripDigits(why), "length %d shape %s: %s", n, shape, why)
+		c.Fail(id+" "+entry+" result-shape (long chain): "+stripDigits(why), "length %d shape %s: %s", n, shape, why)
 	}
 	if len(res) != n {
 		return
@@ -719,7 +722,7 @@ func c12LongChains(c *mc.Ctx) {
 			want = result.ResultOK
 		}
 		if res[i] != nil && res[i].Result != want {
-			c.Fail("C12 "+entry+" positional result on a long chain", "length %d shape %s position %d: %s, want %s", n, shape, i, res[i].Result, want)
+			c.Fail(id+" "+entry+" positional result on a long chain", "length %d shape %s position %d: %s, want %s", n, shape, i, res[i].Result, want)
 			return
 		}
 	}
